@@ -5,7 +5,7 @@ from props import ir_kernel
 G = os.path.dirname(os.path.dirname(os.path.abspath(__file__)))
 LEVEL_TEXT = 'bounded model checking of the inductive step: the real constrain() of each analysis, real generate_dependencies/Trace impls, one step from an arbitrary pre-state on a stub IR; plus the real work-list loop on a generic framework'
 OUTSIDE = ['whether parsing creates the edges the C/C++ entity really has (libclang)', 'lookup_* call sites in code generation', 'the composition theorem (Kildall): local obligations + generic algorithm => least fixed point, on paper',
-           'the real hash containers', 'UsedTemplateParameters (own dependency construction; not encoded)', 'nodes with more than 3 neighbour slots (2 fields / 1 base, 1 template argument + definition, return + 1 parameter)']
+           'the real hash containers', 'UsedTemplateParameters::constrain (one-step obligations over set-valued facts: out of memory, measured) and the closure computation at the head of UsedTemplateParameters::new; only the dependency-recording loop body of new is decided', 'nodes with more than 3 neighbour slots (2 fields / 1 base, 1 template argument + definition, return + 1 parameter)']
 EXPLANATION = ('For each analysis the solver picks the kind of node X (all 22 TypeKind variants), its flags, its children\'s kinds, and an arbitrary analysis state; constrain(X) runs on two states differing in one child. '
                'Asserted: locality, inflation, truthful Changed/Same, monotonicity, and non-interference (influence implies a dependency edge).')
 
@@ -114,11 +114,51 @@ def dependencies_kernel(tier):
     return k
 
 
+def template_params_kernel(tier):
+    base, encd = ir_kernel.base_text(4, 4)
+    ctxsrc = rd('ir/context.rs')
+    res = []
+    tp = strip_test_mods(strip_uses(strip_inner(rd('ir/analysis/template_params.rs'))))
+    pre2 = open(os.path.join(G, 'prelude', 'ir_env_tp.rs')).read()
+    har = open(os.path.join(G, 'harness', 'ir_tp.rs')).read()
+    KINDS = ['Int', 'Float', 'Pointer', 'Array', 'Alias', 'ResolvedTypeRef', 'Vector', 'Reference', 'BlockPointer', 'TemplateAlias', 'Function', 'Enum', 'Comp',
+             'TemplateInstantiation', 'Void', 'NullPtr', 'TypeParam', 'Complex', 'ObjCId', 'ObjCSel', 'ObjCInterface', 'Opaque']
+    QUICK = {'Comp', 'Alias', 'TemplateInstantiation', 'TypeParam', 'Function'}
+    gen, hs = [], []
+    P = 'template_params::tp_proofs::'
+    for tag, kn in enumerate(KINDS):
+        # the one-step obligations on UsedTemplateParameters::constrain (fn step / fn mono in harness/ir_tp.rs) are NOT registered: measured 2x constrain from an
+        # arbitrary set-valued pre-state = 320-840 s of symbolic execution, 76-114 k VCCs, and CBMC runs out of 36 GB in the propositional reduction
+        if kn in ('Alias', 'Pointer', 'TemplateInstantiation', 'Comp', 'Function', 'TemplateAlias'):
+            hn = 'tp_deps_%s' % kn
+            gen.append('#[kani::proof] #[kani::unwind(5)] fn %s() { deps(%d) }' % (hn, tag))
+            hs.append(H(hn, path=P + hn, timeout=1500, weight=2, tier='quick' if kn in ('Alias', 'TemplateInstantiation', 'Comp') else 'thorough', may_unsat=('X traces a non-allowlisted item',),
+                        desc='UsedTemplateParameters::new, loop body applied to a %s X: X is recorded under every item it traces (allowlisted or not) and every visited / read item has a set' % kn, sample={'X_kind': kn, 'children_allowlisted': 'symbolic'}))
+    m = re.search(r'for item in allowlisted_and_blocklisted_items \{', tp)
+    if not m:
+        raise SliceError('UsedTemplateParameters::new: loop over the allowlisted closure not found')
+    loop_body = tp[m.end():match_brace(tp, m.end() - 1) - 1]
+    har = har.replace('/*NEW_LOOP_BODY*/', loop_body)
+    text = '\n'.join([base.replace('pub const NI: usize', 'pub const PARAM: usize = 2;   // the item that stands for a declared template parameter\npub const NI: usize'), pre2] + res + [open(os.path.join(G, 'harness', 'ir_ctx.rs')).read(),
+                      'pub mod template_params { use super::*; ' + tp + '\n' + har.replace('/*GENERATED*/', '\n    '.join(gen)) + ' }'])
+    k = Kernel(name='used_template_params')
+    k.files = {'src/lib.rs': text}
+    k.harnesses = hs
+    k.encoded = encd + [enc('ir/analysis/template_params.rs', 'whole file', rd('ir/analysis/template_params.rs'))]
+    k.stubs = ['stub IR as in the other step kernels, plus prelude/ir_env_tp.rs: get_mut / values / Index on the map, iteration and FromIterator on the sets, Type::self_template_params (hand transcription of impl TemplateParameters for TypeKind)',
+               'a declared template parameter is item 2 (PARAM)', 'ItemResolver: two-hop straight-line stub with the same flags (the real loop is unrolled to the global bound at every call site)']
+    k.assumptions = ['IR invariants as in the other step kernels', 'template arguments are not aliases of other items inside the 4-item graph beyond one hop (children are leaves); reading an argument through an alias chain is argued on paper (an alias holds exactly the set of its target)',
+                     'X and the root module are allowlisted; the children may or may not be']
+    k.bounds = ['4 items; sets over 4 ids; one node X over <= 3 neighbour slots; all 22 TypeKind variants; unwind 5']
+    return k
+
+
 def build(tier, seed):
     known = load_known()
     names = ['has_float', 'has_destructor', 'has_vtable', 'sizedness', 'has_type_param_in_array', 'derive_copy', 'derive_debug', 'derive_default', 'derive_hash', 'derive_partialeq']
     ks = [kernel_or_error(n, (lambda n=n: analysis_kernel(n, tier, known))) for n in names]
     ks.append(kernel_or_error('dependencies', lambda: dependencies_kernel(tier)))
+    ks.append(kernel_or_error('used_template_params', lambda: template_params_kernel(tier)))
     try:
         from props import c07_worklist
         ks.append(kernel_or_error('worklist', lambda: c07_worklist.kernel(tier, seed)))
